@@ -606,8 +606,8 @@ def check_csf(s, cid, c, img, csf_off, e_self, e_csf, app_off, app16, pki, hab, 
         if c["nonce"]:
             s.expect(nonce == c["nonce"], cid, "configured nonce not used")
         else:
-            want = 13 if csf_off + c["ivt"] < 0x10000 else 12 if csf_off + c["ivt"] < 0x1000000 else 11
-            s.expect(nl == want, cid, "generated nonce length", nl, want)
+            s.expect(7 <= nl <= 13 and sum(ln for _, ln in dblocks) < 256 ** (15 - nl), cid,
+                     "generated nonce length is not a CCM nonce length whose length field can hold the encrypted size", nl)
         s.expect(a_dec["key"] == c["key_slot"] and sk_cmd["tgt"] == c["key_slot"] and sk_cmd["src"] == c["kek"] and sk_cmd["par"] == 1, cid,
                  "Install Secret Key / Decrypt Data key slots", (a_dec["key"], sk_cmd["raw"].hex()))
         s.expect(sk_cmd["loc"] == e_csf + 0x2000 and sk_cmd["loc"] == c["start"] + padded_len, cid, "DEK blob location is not directly behind the CSF", sk_cmd["loc"], e_csf + 0x2000)
@@ -704,7 +704,7 @@ def run(ck):
               "configurations with both DCD and XMCD (both at IVT+0x40: SPSDK overlays them silently) and CSFs larger than CSF_SIZE are outside the modelled domain")
     kinds = ["rsa4096", "p256", "p384", "p521"] if ck.quick else ["rsa4096", "rsa2048", "p256", "p384", "p521"]
     pki = Pki(rng, scratch, kinds)
-    n = ck.budget(max(len(devices) * 3 // 2, 130), 6000)
+    n = ck.budget(len(devices) * 3 + 12, 6000)
     big = ck.budget(20000, 65536)
     s = ck.stream("images", f"{n} containers: every (family, boot device) of the database x plain/authenticated/encrypted first, then random; application sizes "
                   "{16, 17, 31, 32, 100, 4095, 4096, 4097, 8191, random}; DB or explicit IVT offset / initial load size; +-DCD, +-XMCD (interface 0/1, instance 0..2); "
@@ -720,5 +720,112 @@ def run(ck):
     settle(ck, s, drv, reqs)
 
 
+    side_streams(ck, drv)
+
+
+def side_streams(ck, drv):
+    """small codecs: CSF commands, XMCD block, nonce length"""
+    from spsdk.image.commands import (CmdAuthData, CmdInstallKey, CmdNop, CmdSet, CmdUnlockCAAM, CmdUnlockOCOTP, CmdUnlockSNVS, EnumAuthDat,
+                                      EnumCertFormat, EnumEngine, EnumInsKey, EnumItm, parse_command)
+    from spsdk.image.images import BootImgRT
+    from spsdk.image.secret import EnumAlgorithm
+    from spsdk.image.segments import SegXMCD
+    rng = ck.rng
+    # ---------------------------------------------------------------- commands
+    sc = ck.stream("commands", "CSF commands built with SPSDK's classes (Install Key, Authenticate Data with 0..6 blocks, Set, Unlock SNVS/CAAM/OCOTP with and "
+                   "without UID, NOP) with random field values: export -> parse_command(export + junk) -> export is the identity on the real code; the model's "
+                   "decode/encode gives the same bytes and size. non-trivial = distinct command")
+    reqs = []
+    for _ in range(ck.budget(300, 5000)):
+        k = rng.randrange(7)
+        if k == 0:
+            fmt = rng.choice(list(EnumCertFormat))
+            cmd = CmdInstallKey(rng.choice(list(EnumInsKey)), fmt, rng.choice(list(EnumAlgorithm)), rng.choice([0, 1, 2, 3] if fmt == EnumCertFormat.SRK else [0, 2, 3, 4, 5]),
+                                rng.randrange(6), rng.getrandbits(32))
+        elif k == 1:
+            cmd = CmdAuthData(rng.choice(list(EnumAuthDat)), rng.randrange(6), rng.choice([EnumCertFormat.CMS, EnumCertFormat.AEAD]), rng.choice(list(EnumEngine)),
+                              rng.getrandbits(8), rng.getrandbits(32))
+            for _b in range(rng.randrange(7)):
+                cmd.append(rng.getrandbits(32), rng.getrandbits(32))
+        elif k == 2:
+            cmd = CmdSet(rng.choice(list(EnumItm)), rng.choice(list(EnumAlgorithm)), rng.choice(list(EnumEngine)), rng.getrandbits(8))
+        elif k == 3:
+            cmd = CmdUnlockSNVS(rng.randrange(4))
+        elif k == 4:
+            cmd = CmdUnlockCAAM(rng.randrange(8))
+        elif k == 5:
+            cmd = CmdUnlockOCOTP(rng.randrange(16), rng.getrandbits(64))
+        else:
+            cmd = CmdNop(0)
+        raw = pyres(cmd.export)
+        if raw[0] != "ok":
+            sc.expect(False, repr(cmd), "command export raised", raw)
+            continue
+        raw = raw[1]
+        sc.note(raw.hex(), cls=type(cmd).__name__)
+        junk = bytes(rng.getrandbits(8) for _ in range(rng.randrange(9)))
+        back = pyres(lambda: (lambda c2: (c2.export(), c2.size))(parse_command(raw + junk)))
+        sc.expect(back == ("ok", (raw, len(raw))), raw.hex(), "parse_command(export) does not give the command back", back)
+        reqs.append((raw.hex(), "cmd " + (raw + junk).hex(), f"ok:{raw.hex()}:{len(raw)}"))
+    if drv is not None:
+        for (inp, _l, real), ans in zip(reqs, drv.batch([r[1] for r in reqs])):
+            sc.compare(inp, real, ans)
+    # ---------------------------------------------------------------- XMCD
+    sx = ck.stream("xmcd", "XMCD files: every interface 0/1 x instance 0..15 x type 0/1 with sizes {4, 8, 12, 255, 256, 260, 516, 4092}, plus wrong tag / version / "
+                   "interface / size / truncated files: SegXMCD.parse(file).export() (what the HAB builder places at IVT+0x40) must be the file; model xmcdLoad. "
+                   "non-trivial = distinct file header")
+    reqs = []
+    files = []
+    for iface in (0, 1):
+        for inst in range(16):
+            for typ in (0, 1):
+                size = rng.choice([4, 8, 12, 255, 256, 260, 516, 4092])
+                files.append((True, bytes([size & 0xFF, (typ << 4) | (size >> 8), (iface << 4) | inst, 0xC0]) + bytes(rng.getrandbits(8) for _ in range(size - 4))))
+    for _ in range(40):
+        good = files[rng.randrange(len(files))][1]
+        bad = bytearray(good)
+        r = rng.randrange(5)
+        if r == 0:
+            bad[3] = rng.choice([0xD0, 0xC1, 0x00])
+        elif r == 1:
+            bad[2] = 0x20 | (bad[2] & 0xF)
+        elif r == 2:
+            bad[1] = 0x20 | (bad[1] & 0xF)
+        elif r == 3:
+            bad = bad + b"\x00"
+        else:
+            bad = bad[:rng.randrange(0, 4)]
+        files.append((False, bytes(bad)))
+    for valid, f in files:
+        sx.note(f[:4].hex() + f":{len(f)}", cls="valid" if valid else "invalid")
+        real = pyres(lambda: SegXMCD.parse(f).export())
+        if valid:
+            sx.expect(real == ("ok", f), f[:8].hex(), "SegXMCD.parse(file).export() is not the file (interface / instance lost)", real[1][:8].hex() if real[0] == "ok" else real, f[:8].hex())
+            sx.expect(pyres(lambda: SegXMCD.parse(f).size) == ("ok", len(f)), f[:8].hex(), "SegXMCD.size is not the length of the exported block", pyres(lambda: SegXMCD.parse(f).size), len(f))
+        reqs.append((f[:8].hex() + f":{len(f)}", "xmcd " + hexs(f), ("ok:" + real[1].hex()) if real[0] == "ok" else real[0]))
+    if drv is not None:
+        for (inp, _l, real), ans in zip(reqs, drv.batch([r[1] for r in reqs])):
+            sx.compare(inp, real, ans)
+    # ---------------------------------------------------------------- nonce length
+    sn = ck.stream("nonce_length", "BootImgRT.aead_nonce_len at 0, 1, 2^16-1, 2^16, 2^24-1, 2^24, 2^32-1 and random sizes: a CCM nonce length (7..13) whose length "
+                   "field holds the size; equals the translated function. non-trivial = distinct size")
+    sizes = [0, 1, 15, 16, 0xFFFF, 0x10000, 0x10001, 0xFFFFFF, 0x1000000, 0x1000001, 0xFFFFFFFF] + [rng.getrandbits(rng.randrange(1, 33)) for _ in range(ck.budget(50, 500))]
+    reqs = []
+    for n in sizes:
+        r = pyres(BootImgRT.aead_nonce_len, n)
+        sn.note(n)
+        sn.expect(r[0] == "ok" and 7 <= r[1] <= 13 and n < 256 ** (15 - r[1]), n, "nonce length is not a CCM nonce length that can hold the data size", r)
+        reqs.append((n, f"nonce {n}", f"ok:{r[1]}" if r[0] == "ok" else r[0]))
+    if drv is not None:
+        for (inp, _l, real), ans in zip(reqs, drv.batch([r[1] for r in reqs])):
+            sn.compare(inp, real, ans)
+
+
 def replay(ck, data):
+    """re-run the whole generation with the seed / tier of the replay file (cases are functions of the seed)"""
+    import random
+    if isinstance(data, dict) and "seed" in data:
+        ck.seed = data["seed"]
+        ck.rng = random.Random(f"{ck.prop}/{ck.seed}")
+        ck.tier = data.get("tier", ck.tier)
     run(ck)
